@@ -163,3 +163,12 @@ Theorem DupModuloAliasNested_refuted :
     ~ SameSet (Leaves (with_granularity cmp15 One (map (normalize cmp15) ts))) (Leaves ts).
 Proof. exact Lemmas.DupModuloAliasNested_witness. Qed.
 Print Assumptions DupModuloAliasNested_refuted.
+
+(* "never moves an import across a non-import item": the runs are contiguous pieces of the item list in
+   order (unseg/strip), every other item keeps its place, and each run is rewritten on its own *)
+Theorem runs_no_crossing : forall (cmp : tree -> tree -> comparison) (g : granularity)
+                                  (grp reorder ig : bool) (items : list item),
+  unseg (seg ig None items) = map strip items /\
+  Forall2 (run_rel cmp g) (seg ig None items) (visit_items cmp g grp reorder ig items).
+Proof. exact Lemmas.runs_no_crossing. Qed.
+Print Assumptions runs_no_crossing.
